@@ -432,16 +432,17 @@ class Gen:
             if proto == TCP:
                 c.append({"op": "TC", "t": t, "sport": next(sports)})
             x = r.random() if ci == faulty else 1.0
-            if x < 0.45:        # the local_map update inside connect4 fails
-                ops += [{"op": "FAIL", "kind": 1, "k": 1, "errno": r.choice([16, 12, 7])}] + c
-            elif x < 0.70 and len(c) == 2:      # the audit_map update inside the kprobe fails
-                ops += [c[0], {"op": "FAIL", "kind": 1, "k": 1, "errno": r.choice([16, 12])}, c[1]]
-            elif x < 0.85 and len(c) == 2:      # the local_map delete inside the kprobe fails
-                ops += [c[0], {"op": "FAIL", "kind": 2, "k": 1, "errno": 16}, c[1]]
+            # FAIL k: the k-th map helper call of the next hook run fails if it is an update / delete.
+            # connect4: 1 policy lookup, 2 skip lookup, 3 local_map update.  kprobe: 1 skip lookup, 2 local_map lookup,
+            # then 3 audit_map update, 4 local_map delete (or 3 policy lookup, 4 audit_map update)
+            if x < 0.45:
+                ops += [{"op": "FAIL", "k": r.choice([3, 3, 3, 3, 1, 2, 4]), "errno": r.choice([16, 12, 7])}] + c
+            elif x < 0.85 and len(c) == 2:
+                ops += [c[0], {"op": "FAIL", "k": r.choice([3, 3, 4, 4, 1, 2, 5]), "errno": r.choice([16, 12])}, c[1]]
             else:
                 ops += c
         self.count("fault_scripts")
-        return {"kind": "faults", "wf": True, "nomodel": True, "ops": ops}
+        return {"kind": "faults", "wf": True, "fmodel": True, "ops": ops}
 
     def sched(self):
         """another caller's hook runs on another CPU between two map helper calls of this caller's hook"""
@@ -593,8 +594,8 @@ def concretise(script, answers, odd):
             lines.append("TC %d %d %d %d %d" % (o["t"] + (o["sport"],)))
             terms.append("LTcpInflight %s %d" % (ct(o["t"]), o["sport"]))
         elif op == "FAIL":
-            lines.append("FAIL %d %d %d" % (o["kind"], o["k"], o["errno"]))
-            terms.append("LEvent (EAuditLookup (@nil N))")       # scripts with faults are not run by the model
+            lines.append("FAILN %d %d" % (o["k"], o["errno"]))
+            terms.append(("FFail", o["k"]))
         elif op == "SCHED":
             h = o["nested"]
             if h["op"] == "C4":
@@ -609,7 +610,10 @@ def concretise(script, answers, odd):
         else:
             raise ValueError(op)
         spans.append((first, len(lines) - first))
-    return lines, "(%s %s)" % (" ".join(binds), clist(terms, "line")), spans
+    if script.get("fmodel"):       # Model/EbpfFaults.v: script lines with fault lines
+        fterms = [("FFail %d%%nat" % x[1]) if isinstance(x, tuple) else ("FLine (%s)" % x) for x in terms]
+        return lines, "(%s %s)" % (" ".join(binds), clist(fterms, "fline")), spans
+    return lines, "(%s %s)" % (" ".join(binds), clist([x for x in terms if not isinstance(x, tuple)], "line")), spans
 
 
 # ------------------------------------------------------------------------------------------------
@@ -850,7 +854,7 @@ def lenient_failures(script, lines, spans, louts, ldumps, lnested, enc, decode, 
             if done or cnt == 0:
                 skipped.add(o["pid"])
         elif op == "FAIL":
-            armed = " while its %s helper call #%d failed with errno %d" % ({1: "bpf_map_update_elem", 2: "bpf_map_delete_elem"}[o["kind"]], o["k"], o["errno"])
+            armed = " while its map helper call #%d failed with errno %d" % (o["k"], o["errno"])
         elif op == "SCHED":
             nested = o
         elif op in ("C4", "TC"):
@@ -1031,7 +1035,8 @@ def run(ctx):
         # ---------------- model: the same scripts by vm_compute ----------------
         prelude = ("Definition T a b c d := {| tgid := a; tid := b; uid := c; gid := d |}.\n"
                    "Definition SA a b c := {| sa_ip := a; sa_port := b; sa_proto := c |}.\n")
-        exprs = [("0" if s.get("nomodel") else "run_script_d %s" % term) for s, (_l, term, _sp) in zip(scripts, conc)]
+        exprs = [("0" if s.get("nomodel") else ("run_script_fd %s" if s.get("fmodel") else "run_script_d %s") % term)
+                 for s, (_l, term, _sp) in zip(scripts, conc)]
         order = sorted(range(len(exprs)), key=lambda i: -len(exprs[i]))   # spread the heavy scripts over the shards
         nshard = 12
         buckets = [[] for _ in range(nshard)]
@@ -1041,7 +1046,7 @@ def run(ctx):
         padded = []
         for b in buckets:
             padded += [exprs[i] for i in b] + ["0"] * (shard - len(b))
-        res = vplib.coq_eval(ctx, "From GPA Require Import Ebpf.", padded, prelude=prelude, shard=shard, timeout=1500, name="scripts")
+        res = vplib.coq_eval(ctx, "From GPA Require Import Ebpf EbpfFaults.", padded, prelude=prelude, shard=shard, timeout=1500, name="scripts")
         model = [None] * len(exprs)
         for bi, b in enumerate(buckets):
             for j, i in enumerate(b):
@@ -1058,7 +1063,7 @@ def run(ctx):
                 agree += 1
                 continue
             bad = {"what": "rolling digest of (outputs, map dumps) after every line", "impl_digest": chain[-1] if chain else 7, "model_digest": m}
-            if located < 5:      # name the first differing line and show both sides there
+            if located < 5 and not s.get("fmodel"):      # name the first differing line and show both sides there
                 located += 1
                 tr = vplib.coq_eval(ctx, "From GPA Require Import Ebpf.", ["run_script_t %s" % term], prelude=prelude, name="loc%d" % si)[0]
                 i = next((i for i, (a, b) in enumerate(zip(chain, tr)) if a & 1048575 != b), None)
@@ -1191,7 +1196,7 @@ def run(ctx):
             if not s["wf"]:
                 continue
             judged += 1
-            if s.get("nomodel"):
+            if s.get("nomodel") or s.get("fmodel"):
                 failures += lenient_failures(s, lines, spans, [p[1] for p in per], [p[2] for p in per], [p[3] for p in per], enc, decode,
                                              consts["proxy_agent_ip_network_byte_order"], loaded_caps)
                 continue
@@ -1225,10 +1230,11 @@ def run(ctx):
                 "functions (update_policy_elem_bpf_map, update_redirect_policy, update_skip_process_map, remove_audit_map_entry, lookup_audit) were "
                 "recorded to issue when run IN SEQUENCE on one BpfObject freshly loaded by from_ebpf_file per script (start-up installer and run-time "
                 "updater mixed on the same endpoints); a connect must be diverted iff its destination is in the policy the agent INTENDS at that time; "
-                "bursts of 17..129 threads in flight; `faults` scripts (one map helper call of a hook fails with -EBUSY/-ENOMEM/-E2BIG) and `sched` "
-                "scripts (another caller's hook between two map helper calls of this one, preallocated element reuse) are run by the implementation "
-                "only (the model's hook runs are atomic and never fail) and judged by the property: diverted-or-refused, records state the caller "
-                "that made the connection; "
+                "bursts of 17..129 threads in flight; `faults` scripts (the k-th map helper call of a hook fails with -EBUSY/-ENOMEM/-E2BIG) are run by "
+                "the implementation AND by the refined model (Model/EbpfFaults.v, same oracle fail_at k) with the same digest comparison, and judged by "
+                "the property (diverted-or-refused, records state the caller that made the connection); `sched` scripts (another caller's hook between "
+                "two map helper calls of this one, preallocated element reuse) are run by the implementation only (the model's hook runs are atomic) "
+                "and judged by the same property; "
                 "a rolling digest absorbs the outputs and the dump of all four maps after EVERY line and is compared per script (first differing line "
                 "located on mismatch); 1-6 processes x 1-3 threads, uid/gid independently from {0,1000,65534,2^32-1}, the three protected endpoints and "
                 "near misses (UDP, other port, byte-swapped port, other ip, the proxy itself, random), uniform interleavings with agent operations in "
